@@ -53,7 +53,7 @@ theorem lookup_emit_none (d : Desc) (r : Rec) (k : String) : ∀ (ms : List MFie
 theorem lookup_emit (d : Desc) (r : Rec) (k : String) : ∀ (ms : List MField), (ms.map (·.key)).Nodup →
     lookup k (ms.filterMap (emit (fun _ v => v) d r)) =
       (match ms.find? (fun m => m.key == k) with
-       | some m => if guard (tcOfGo d m.goName) m.guard (r.fld m.goName) then some (r.fld m.goName) else none
+       | some m => if guard (tcOfGo d m.goName) m.guard (r.fld m.goName) then some (written m.guard (r.fld m.goName)) else none
        | none => none)
   | [], _ => rfl
   | m :: ms, hn => by
@@ -90,7 +90,7 @@ def flatSpec (d : Desc) (o : Obj) (k : String) : Option JV :=
   if refTaken d o then (if k = "$ref" then some (fldVal d o "Ref") else none)
   else
     match d.marsh.find? (fun m => m.key == k) with
-    | some m => if guard (tcOfGo d m.goName) m.guard (fldVal d o m.goName) then some (fldVal d o m.goName)
+    | some m => if guard (tcOfGo d m.goName) m.guard (fldVal d o m.goName) then some (written m.guard (fldVal d o m.goName))
                 else (if k ∈ d.dels then none else lookup k o)
     | none => if k ∈ d.dels then none else lookup k o
 
@@ -106,7 +106,7 @@ theorem flatSpec_none (d : Desc) (o : Obj) (k : String) (hr : refTaken d o = fal
 theorem flatSpec_some (d : Desc) (o : Obj) (k : String) (m : MField) (hr : refTaken d o = false)
     (hf : d.marsh.find? (fun m => m.key == k) = some m) :
     flatSpec d o k =
-      if guard (tcOfGo d m.goName) m.guard (fldVal d o m.goName) then some (fldVal d o m.goName)
+      if guard (tcOfGo d m.goName) m.guard (fldVal d o m.goName) then some (written m.guard (fldVal d o m.goName))
       else (if k ∈ d.dels then none else lookup k o) := by
   simp [flatSpec, hr, hf]
 
@@ -139,9 +139,9 @@ theorem flatRT_lookup (d : Desc) (o : Obj) (k : String)
 /-! ### what the guard classes mean for the type classes -/
 
 /-- only defaults are omitted -/
-theorem compatW_keeps (tc : TC) (g : Guard) (v : JV) (h : compatW tc g = true)
+theorem compat_keeps (tc : TC) (g : Guard) (v : JV) (h : compat tc g = true)
     (hd : isDefault tc v = false) : guard tc g v = true := by
-  cases tc <;> cases g <;> simp [compatW, compat] at h <;>
+  cases tc <;> cases g <;> simp [compat] at h <;>
     cases v <;> simp_all [isDefault, guard, JV.isNull, JV.isEmptyStr, JV.isFalse, JV.isZeroNum, JV.isEmptyColl]
 
 /-- a non-default value is what the decoder stores -/
@@ -149,24 +149,32 @@ theorem decode_of_not_default (tc : TC) (v : JV) (hd : isDefault tc v = false) :
     decode tc (some v) = v := by
   cases v <;> simp_all [isDefault, decode, JV.isNull]
 
-/-- a zero value is written only by an unconditional write -/
-theorem compatW_zero (tc : TC) (g : Guard) (h : compatW tc g = true)
-    (hz : guard tc g (zero tc) = true) : g = .always := by
-  cases tc <;> cases g <;> simp [compatW, compat] at h <;>
-    simp_all [guard, zero, JV.isNull, JV.isEmptyStr, JV.isFalse, JV.isZeroNum, JV.isEmptyColl]
+/-- a non-default value is written as it is -/
+theorem written_of_not_default (tc : TC) (g : Guard) (v : JV) (hd : isDefault tc v = false) :
+    written g v = v := by
+  cases v <;> cases g <;> simp_all [isDefault, written, JV.isNull]
 
-/-- what is written is read back unchanged (strict agreement) -/
+/-- a zero value is written only by an unconditional write -/
+theorem compat_zero (tc : TC) (g : Guard) (h : compat tc g = true)
+    (hz : guard tc g (zero tc) = true) : g.uncond = true := by
+  cases tc <;> cases g <;> simp [compat] at h <;>
+    simp_all [guard, zero, Guard.uncond, JV.isNull, JV.isEmptyStr, JV.isFalse, JV.isZeroNum, JV.isEmptyColl]
+
+/-- what is written is read back unchanged, passes the guard again and is written unchanged again -/
 theorem compat_stable (tc : TC) (g : Guard) (x : Option JV) (h : compat tc g = true)
-    (hg : guard tc g (decode tc x) = true) : decode tc (some (decode tc x)) = decode tc x := by
+    (hg : guard tc g (decode tc x) = true) :
+    decode tc (some (written g (decode tc x))) = written g (decode tc x) ∧
+    guard tc g (written g (decode tc x)) = true ∧
+    written g (written g (decode tc x)) = written g (decode tc x) := by
   cases x with
   | none =>
     cases tc <;> cases g <;> simp [compat] at h <;>
-      simp_all [guard, decode, zero, JV.isNull, JV.isEmptyStr, JV.isFalse, JV.isZeroNum, JV.isEmptyColl]
+      simp_all [guard, decode, zero, written, JV.isNull, JV.isEmptyStr, JV.isFalse, JV.isZeroNum, JV.isEmptyColl]
   | some v =>
     cases tc <;> cases g <;> simp [compat] at h <;> cases v <;>
-      simp_all [guard, decode, zero, JV.isNull, JV.isEmptyStr, JV.isFalse, JV.isZeroNum, JV.isEmptyColl]
+      simp_all [guard, decode, zero, written, JV.isNull, JV.isEmptyStr, JV.isFalse, JV.isZeroNum, JV.isEmptyColl]
 
-/-- what is omitted stays omitted when it comes back as the zero value (strict agreement) -/
+/-- what is omitted stays omitted when it comes back as the zero value -/
 theorem compat_omitted (tc : TC) (g : Guard) (v : JV) (h : compat tc g = true)
     (hg : guard tc g v = false) : guard tc g (zero tc) = false := by
   cases tc <;> cases g <;> simp [compat] at h <;>
@@ -242,18 +250,17 @@ namespace KinModel.Marshal
 
 /-! ### one level of the composition over nesting -/
 
-theorem mapM_ok_of_forall {α β : Type} (f : α → Res β) (g : α → β) :
-    ∀ (l : List α), (∀ x ∈ l, f x = .ok (g x)) → l.mapM f = .ok (l.map g)
+theorem mapR_ok_of_forall {α β : Type} (f : α → Res β) (g : α → β) :
+    ∀ (l : List α), (∀ x ∈ l, f x = .ok (g x)) → mapR f l = .ok (l.map g)
   | [], _ => rfl
   | x :: l, h => by
     have hx := h x (by simp)
-    have hl := mapM_ok_of_forall f g l (fun y hy => h y (List.mem_cons_of_mem _ hy))
-    simp only [List.mapM_cons, hx, hl, List.map_cons]
-    rfl
+    have hl := mapR_ok_of_forall f g l (fun y hy => h y (List.mem_cons_of_mem _ hy))
+    simp only [mapR, hx, hl, List.map_cons]
 
 theorem filter_map_eq_filterMap_emit (d : Desc) (r : Rec) : ∀ (ms : List MField),
     (ms.filter (fun m => guard (tcOfGo d m.goName) m.guard (r.fld m.goName))).map
-        (fun m => (m.key, r.fld m.goName)) = ms.filterMap (emit (fun _ v => v) d r)
+        (fun m => (m.key, written m.guard (r.fld m.goName))) = ms.filterMap (emit (fun _ v => v) d r)
   | [] => rfl
   | m :: ms => by
     simp only [List.filter_cons, List.filterMap_cons, emit]
@@ -264,20 +271,131 @@ theorem filter_map_eq_filterMap_emit (d : Desc) (r : Rec) : ∀ (ms : List MFiel
     struct kind is the flat one. -/
 theorem marshalDeep_of_children_fixed (f : Shape → JV → Res JV) (d : Desc) (r : Rec)
     (h : ∀ m ∈ d.marsh, guard (tcOfGo d m.goName) m.guard (r.fld m.goName) = true →
-          f (shapeOfGo d m.goName) (r.fld m.goName) = .ok (r.fld m.goName)) :
+          f (shapeOfGo d m.goName) (written m.guard (r.fld m.goName)) = .ok (written m.guard (r.fld m.goName))) :
     marshalDeep f d r = .ok (marshal d r) := by
   unfold marshalDeep marshal marshalWith
   split
   · rfl
-  · have := mapM_ok_of_forall
-      (fun (m : MField) => (f (shapeOfGo d m.goName) (r.fld m.goName)).map (fun v' => (m.key, v')))
-      (fun m => (m.key, r.fld m.goName))
+  · have := mapR_ok_of_forall
+      (fun (m : MField) =>
+          (f (shapeOfGo d m.goName) (written m.guard (r.fld m.goName))).wrap (fun v' => (m.key, v')))
+      (fun m => (m.key, written m.guard (r.fld m.goName)))
       (d.marsh.filter (fun m => guard (tcOfGo d m.goName) m.guard (r.fld m.goName)))
       (by
         intro m hm
         obtain ⟨hm1, hm2⟩ := List.mem_filter.mp hm
-        rw [h m hm1 hm2]; rfl)
+        simp only [h m hm1 hm2, Res.wrap])
     rw [this, filter_map_eq_filterMap_emit]
     rfl
+
+end KinModel.Marshal
+
+namespace KinModel.Marshal
+
+/-- a normal-form object comes back unchanged, key by key (proof of `flat_normal_roundtrip`) -/
+theorem flat_normal_lookup (d : Desc) (o : Obj) (k : String) (w : WF compat d) (hn : normalObjB d o = true) :
+    lookup k (flatRT d o) = lookup k o := by
+  rw [flatRT_lookup d o k w.ext w.unm w.asg w.nodupM]
+  simp only [normalObjB, Bool.and_eq_true, List.all_eq_true, Bool.or_eq_true, Bool.not_eq_true',
+    beq_iff_eq] at hn
+  obtain ⟨⟨⟨_, hnd⟩, hreq⟩, hsib⟩ := hn
+  -- a present field value is not a default, so it is stored and written as it is
+  have present : ∀ (f : Field) (v : JV), f ∈ d.fields → lookup f.key o = some v → isDefault f.tc v = false := by
+    intro f v hf hv
+    have := hnd (f.key, v) (lookup_mem f.key v o hv)
+    have hk : fieldByKey d f.key = some f := find_field_of_nodup f d.fields w.nodupTags hf
+    simpa [hk] using this
+  -- a `$ref` key in a kind with the early return means the object is exactly that reference
+  have refOnly : d.refEarly = true → ∀ x, lookup "$ref" o = some x → refTaken d o = true ∧ o = [("$ref", x)] := by
+    intro hre x hx
+    obtain ⟨f, hf, hfk, htc⟩ := w.refField hre
+    have hfm : f ∈ d.fields := List.mem_of_find?_eq_some hf
+    have hdx := present f x hfm (hfk ▸ hx)
+    rw [htc] at hdx
+    have hlen : o.length = 1 := by
+      rcases hsib with h1 | h1
+      · simp [hre, hasKey, hx] at h1
+      · exact h1
+    constructor
+    · unfold refTaken
+      simp only [hre, Bool.true_and, fldVal, hf, hfk, htc, hx]
+      cases x <;> simp_all [isDefault, decode, JV.isNull, JV.isEmptyStr]
+    · match o, hlen, hx with
+      | [(k0, v0)], _, hx =>
+        simp only [lookup] at hx
+        by_cases e : "$ref" = k0
+        · simp only [e, if_true, Option.some.injEq] at hx; simp [← e, hx]
+        · simp [e] at hx
+  cases hr : refTaken d o with
+  | true =>
+    have hre : d.refEarly = true := by
+      unfold refTaken at hr; simp only [Bool.and_eq_true] at hr; exact hr.1
+    obtain ⟨f, hf, hfk, htc⟩ := w.refField hre
+    rw [flatSpec_ref d o k hr]
+    cases hx : lookup "$ref" o with
+    | none =>
+      unfold refTaken at hr
+      simp [hre, fldVal, hf, hfk, htc, hx, decode, zero, JV.isEmptyStr] at hr
+    | some x =>
+      obtain ⟨_, ho⟩ := refOnly hre x hx
+      have hfm : f ∈ d.fields := List.mem_of_find?_eq_some hf
+      have hdx := present f x hfm (hfk ▸ hx)
+      have hval : fldVal d o "Ref" = x := by
+        simp only [fldVal, hf, hfk, hx]; exact decode_of_not_default f.tc x hdx
+      rw [hval, ho]
+      by_cases e : k = "$ref" <;> simp [lookup, e]
+  | false =>
+    cases hfind : d.marsh.find? (fun m => m.key == k) with
+    | none =>
+      rw [flatSpec_none d o k hr hfind]
+      by_cases hc : k ∈ d.dels
+      · simp only [hc, if_true]
+        -- a tag without a write is `$ref` of a kind with the early return
+        have hkt : k ∈ tagKeys d := w.dels ▸ hc
+        have hnm : k ∉ marshKeys d := by
+          intro hm
+          obtain ⟨m, hm1, hm2⟩ := List.mem_map.mp hm
+          have := List.find?_eq_none.mp hfind m hm1
+          simp [hm2] at this
+        rw [w.keysEq] at hnm
+        unfold expectedMarshKeys at hnm
+        cases hre : d.refEarly with
+        | false => simp [hre] at hnm; exact absurd hkt hnm
+        | true =>
+          simp only [hre, if_true, List.mem_filter, not_and, bne_iff_ne, ne_eq, Decidable.not_not] at hnm
+          have hk := hnm hkt
+          subst hk
+          cases hx : lookup "$ref" o with
+          | none => rfl
+          | some x => have := (refOnly hre x hx).1; rw [hr] at this; cases this
+      · simp [hc]
+    | some m =>
+      rw [flatSpec_some d o k m hr hfind]
+      have hmem := List.mem_of_find?_eq_some hfind
+      have hkm : m.key = k := by simpa using List.find?_some hfind
+      obtain ⟨f, hf, hfk, hc⟩ := w.marshOK m hmem
+      have hfm : f ∈ d.fields := List.mem_of_find?_eq_some hf
+      have htc : tcOfGo d m.goName = f.tc := by simp [tcOfGo, hf]
+      have hdel : k ∈ d.dels := hkm ▸ marsh_key_in_dels compat d w m hmem
+      cases hx : lookup k o with
+      | some v =>
+        have hdv := present f v hfm (by rw [hfk, hkm]; exact hx)
+        have hval : fldVal d o m.goName = v := by
+          simp only [fldVal, hf, hfk, hkm, hx]; exact decode_of_not_default f.tc v hdv
+        simp [hval, htc, compat_keeps f.tc m.guard v hc hdv, written_of_not_default f.tc m.guard v hdv]
+      | none =>
+        have hval : fldVal d o m.goName = zero f.tc := by simp [fldVal, hf, hfk, hkm, hx, decode]
+        rw [hval, htc]
+        cases hg : guard f.tc m.guard (zero f.tc) with
+        | false => simp [hdel]
+        | true =>
+          have hal := compat_zero f.tc m.guard hc hg
+          have : k ∈ requiredKeys d := by
+            unfold requiredKeys; rw [← w.required]
+            simp only [alwaysKeys, List.mem_map, List.mem_filter]
+            exact ⟨m, ⟨hmem, hal⟩, hkm⟩
+          have := hreq k this
+          simp [hasKey, hx] at this
+
 
 end KinModel.Marshal
